@@ -6,7 +6,7 @@ R2 sibling validation of every branch, R3 the serial is inert.
 import ast
 import string
 
-from sa.astutil import (call_name, calls_in, dotted, fact_texts, guards_of, norm,
+from sa.astutil import (facts_at, try_fold, call_name, calls_in, dotted, fact_texts, guards_of, norm,
                         walk_no_nested, last_attr, block_always_exits)
 from sa.consteval import ConstEval, UNKNOWN
 from sa.loader import AnalysisError
@@ -229,6 +229,23 @@ def run(ctx):
                     "%s==''" % str_var, 'len(%s)<1' % str_var) and \
                 any(isinstance(n, ast.Raise) and _is_value_error(n) for n in stmt.body):
             empty_ok = True
+    # a minus sign is legal in front of a decimal body only ("-999"); in front of a
+    # letter body ("-A000") it is an illegal character of the field
+    sign_vars = [st.targets[0].id for st in walk_no_nested(fn) if isinstance(st, ast.Assign)
+                 and isinstance(st.targets[0], ast.Name) and isinstance(st.value, ast.UnaryOp)
+                 and isinstance(st.value.op, ast.USub) and try_fold(st.value) == -1]
+    sign_checked = False
+    for br in (b_upper, b_lower):
+        for e, pol in facts_at(br.body[0] if br.body else br, fn):
+            pass
+    for n in walk_no_nested(fn):
+        if isinstance(n, ast.If) and any(isinstance(x, ast.Name) and x.id in sign_vars for x in ast.walk(n.test)) \
+                and any(isinstance(x, ast.Raise) for x in ast.walk(n)):
+            sign_checked = True
+    ctx.ob('C19.R2', 'sign:only-for-decimal-fields', sign_checked or not sign_vars,
+           'a field whose body starts with a letter is rejected when it carries a minus sign '
+           '(sign variables: %s; a test on the sign that raises: %s)' % (sign_vars, sign_checked),
+           mod, b_upper)
     # only the padding blank may be stripped from the field: str.strip() without
     # argument also removes TAB, CR, LF, FF, NBSP ... which are illegal characters
     # of a hybrid-36 field and must be rejected, not ignored
